@@ -185,6 +185,37 @@ def check(prog, rep):
     # R4: producer/consumer key agreement
     r4 = rep.rule("R4", "pKa-table keys the consumer looks up can be produced by the producer", floor=3)
     check_keys(prog, model, loop, r4)
+    check_value_flow(prog, rep, fi, loop)
+
+
+def check_value_flow(prog, rep, fi, loop):
+    """pKa and pH values flow unmodified from the source to the comparison."""
+    r5 = rep.rule("R5", "pKa and pH reach the comparison unmodified", floor=3)
+    nt = prog.func("main.py", "non_trivial")
+    call = next((c for c in ast.walk(nt.node) if isinstance(c, ast.Call) and U(c.func).endswith(".apply_pka_values")), None)
+    w = f"pdb2pqr/main.py:{call.lineno} (non_trivial)"
+    r5.add("ph-argument", U(call.args[1]) == "args.ph", f"pH argument is {U(call.args[1])}", w)
+    tab = call.args[2]
+    r5.add("pka-value", isinstance(tab, ast.DictComp) and U(tab.value) == "row['pKa']", f"pKa table values are {U(tab.value) if isinstance(tab, ast.DictComp) else '?'}", w)
+    r5.add("ff-argument", U(call.args[0]) == "forcefield_.name", f"force-field argument is {U(call.args[0])}", w)
+    ffn = prog.func("forcefield.py", "Forcefield.__init__").node
+    r5.add("ff-name", "self.name = str(ff_name)" in U(ffn), "Forcefield.name is the (lower-cased) force-field option", "pdb2pqr/forcefield.py (Forcefield.__init__)")
+    ta = prog.func("main.py", "transform_arguments").node
+    r5.add("ff-lowercased", "args.ff = args.ff.lower()" in U(ta), "built-in force-field names are lower-cased before use (the guard lists are lower case)",
+           f"pdb2pqr/main.py:{ta.lineno} (transform_arguments)")
+    fn = fi.node
+    w2 = f"pdb2pqr/biomolecule.py:{fn.lineno} (Biomolecule.apply_pka_values)"
+    rebound = [U(s) for s in ast.walk(fn) if isinstance(s, (ast.Assign, ast.AugAssign)) and
+               any(U(t) in ("ph", "force_field") for t in (s.targets if isinstance(s, ast.Assign) else [s.target]))]
+    r5.add("parameters-unmodified", not rebound, f"ph/force_field re-bound: {rebound or 'never'}", w2)
+    vals = sorted({U(s.value) for s in ast.walk(loop) if isinstance(s, ast.Assign) and U(s.targets[0]) == "value"})
+    r5.add("value-from-table", vals == ["pkadic[key]"], f"the compared value is bound from {vals}", w2)
+    cmps = sorted({U(n) for n in ast.walk(loop) if isinstance(n, ast.Compare) and "ph" in [x.id for x in ast.walk(n) if isinstance(x, ast.Name)]})
+    r5.add("comparisons", all(c in ("ph < value", "ph >= value", "ph <= value", "ph > value", "not ph < value", "not ph >= value") for c in cmps) and bool(cmps),
+           f"pH/pKa comparisons: {cmps} (both operands bare)", w2)
+    run = prog.func("main.py", "run_propka").node
+    rows = [U(s.value) for s in ast.walk(run) if isinstance(s, ast.Assign) and U(s.targets[0]) == "row_dict['pKa']"]
+    r5.add("propka-row", rows == ["group.pka_value"], f"row['pKa'] <- {rows}", f"pdb2pqr/main.py:{run.lineno} (run_propka)")
 
 
 def check_keys(prog, model, loop, r4):
